@@ -308,6 +308,21 @@ func quantifiedBackrefRules() lexer.Rules {
 	}
 }
 
+// lazyRules: lazy quantifiers.  The runtime lexer supports them through regexp; the generator of
+// the unchanged tree rejects them ("non-greedy match not supported"), so the generated twin is an
+// optional fixture (its name starts with Opt) that only exists when the generator accepts it.
+func lazyRules() lexer.Rules {
+	return lexer.Rules{"Root": {
+		{Name: "Comment", Pattern: `<!--(?:[^-]*|-)*?-->`},
+		{Name: "Block", Pattern: `/\*(?:.|\n)*?\*/`},
+		{Name: "List", Pattern: `\[(?:\w*,?)*?\]`},
+		{Name: "Tag", Pattern: `<\w+?>`},
+		{Name: "Word", Pattern: `\w+`},
+		{Name: "Punct", Pattern: `[-<>!/*\[\],]`},
+		{Name: "space", Pattern: `\s+`},
+	}}
+}
+
 func mustRules(r lexer.Rules) lexer.Definition {
 	d, err := lexer.New(r)
 	if err != nil {
@@ -359,6 +374,8 @@ var coreLexDefs = []*lexDef{
 		corpus: []string{"<<END <b></b> END", "a <<X w <i></i> <j> y X b", "<<E <b></c> E", "<<E <b>", ""}},
 	{name: "quantified-backref", rules: quantifiedBackrefRules, build: func() lexer.Definition { return mustRules(quantifiedBackrefRules()) },
 		corpus: []string{`a r#"raw "quoted" text"# b r"plain" c`, `==[ x == y ]== z`, `[ empty group ] w`, `r##"never closed"#`, `=[ a = b`, ""}},
+	{name: "lazy", rules: lazyRules, genName: "OptLazy", build: func() lexer.Definition { return mustRules(lazyRules()) },
+		corpus: []string{"a <!-- c - d --> b /* x * y */ [a,b,] <tag>", "<!-- open - comment", "[a,b $ ]", "/* never closed *", "<!---->[]", ""}},
 	{name: "fence", rules: fenceRules, build: func() lexer.Definition { return mustRules(fenceRules()) },
 		corpus: []string{"a *** code * here *** b", "... x . y ... ++ p + q ++", "$$ 1 $ 2 $$ [[ a [ b [[ (? x ( y (?", "\\\\ back \\ slash \\\\ done", "**** four **** *** open", ""}},
 	{name: "optgroup", rules: optGroupRules, build: func() lexer.Definition { return mustRules(optGroupRules()) },
